@@ -169,3 +169,121 @@ def install_typing(recorder):
 
     _types.ResolveBinaryExpressionType = ResolveBinaryExpressionType
     _TYPING["installed"] = True
+
+
+# ------------------------------------------------------------ C10 overloads
+import weakref  # noqa: E402
+from ..ref import overload as ospec  # noqa: E402
+
+
+class OverloadRecorder:
+    def __init__(self):
+        self.evaluations = 0
+        self.judged = 0
+        self.out_of_universe = 0
+        self.unknown_name_calls = 0
+        self.findings = []
+        self.seen = set()
+
+    def find(self, kind, name, cands, args, expected, observed):
+        key = (kind, tuple(cands), tuple(args))
+        if key in self.seen:
+            return
+        self.seen.add(key)
+        if len(self.findings) < 3000:
+            self.findings.append({"kind": kind, "name": name, "candidates": [list(c) for c in cands], "args": list(args),
+                                  "expected": expected, "observed": observed})
+
+
+_OVL = {"rec": None, "installed": False, "shadow": None}
+
+
+def _nearest(scope, name):
+    shadow = _OVL["shadow"]
+    s = scope
+    while s is not None:
+        d = shadow.get(s)
+        if d is not None and name in d:
+            return d[name]
+        s = s.GetParent()
+    return None
+
+
+def _param_types(fn):
+    return tuple(my_type(t) for t in fn.GetArgumentTypes().values())
+
+
+def _has_optional(fn):
+    try:
+        return any(a.IsOptional() for a in fn.GetArguments())
+    except Exception:
+        return True
+
+
+def _judge_overload(self, functionName, argumentTypes, result, raised):
+    r = _OVL["rec"]
+    if r is None:
+        return
+    r.evaluations += 1
+    cands = _nearest(self, functionName)
+    args = tuple(my_type(t) for t in argumentTypes)
+    if cands is None:
+        r.unknown_name_calls += 1
+        if raised is None:
+            r.find("unknown-name-resolved", functionName, [], args, "reject", "resolved")
+        return
+    ptypes = [_param_types(c) for c in cands]
+    if any(_has_optional(c) for c in cands) or not all(ospec.in_universe(t) for t in args) or \
+            not all(ospec.in_universe(t) for p in ptypes for t in p):
+        r.out_of_universe += 1
+        return
+    r.judged += 1
+    exp = ospec.resolve(ptypes, args)
+    if exp is None:
+        if raised is None:
+            got = [i for i, c in enumerate(cands) if c is result]
+            r.find("resolved-should-reject", functionName, ptypes, args, "reject",
+                   "chose #%s %s" % (got[0] if got else "?", ptypes[got[0]] if got else "?"))
+        return
+    if raised is not None:
+        r.find("rejected-should-resolve", functionName, ptypes, args, "candidate #%d %s" % (exp, ptypes[exp]), "raised " + raised)
+        return
+    if result is not cands[exp]:
+        got = [i for i, c in enumerate(cands) if c is result]
+        r.find("wrong-candidate", functionName, ptypes, args, "candidate #%d %s" % (exp, ptypes[exp]),
+               "chose #%s %s" % (got[0] if got else "?", ptypes[got[0]] if got else "foreign object"))
+
+
+def install_overload(recorder):
+    _OVL["rec"] = recorder
+    if _OVL["installed"]:
+        return
+    _OVL["shadow"] = weakref.WeakKeyDictionary()
+    Scope = _types.Scope
+    orig_find = Scope.FindFunction
+    orig_reg = Scope.RegisterFunction
+
+    def RegisterFunction(self, functionName, typeinfo):
+        r = orig_reg(self, functionName, typeinfo)
+        # shadow state, updated only after the real registration succeeded
+        _OVL["shadow"].setdefault(self, {}).setdefault(functionName, []).append(typeinfo)
+        return r
+
+    def overload_postcondition(self, functionName, argumentTypes, result):
+        _judge_overload(self, functionName, argumentTypes, result, None)
+        return True
+
+    contracted = icontract.ensure(overload_postcondition, error=ContractBroken)(orig_find)
+
+    def FindFunction(self, functionName, argumentTypes):
+        try:
+            return contracted(self, functionName, argumentTypes)
+        except ContractBroken:
+            raise
+        except BaseException as e:
+            _judge_overload(self, functionName, argumentTypes, None, type(e).__name__)
+            raise
+
+    Scope.RegisterFunction = RegisterFunction
+    Scope.FindFunction = FindFunction
+    _OVL["installed"] = True
